@@ -27,6 +27,10 @@ func init() {
 		"os.ReadDir":          extReadDir,
 		"os.Remove":           extRemove,
 		"os.Stat":             extStat,
+		"os.Open":             func(fr *frame, args []value) value { return extOpenFile(fr, []value{args[0], 0, uint32(0)}) },
+		"os.Create":           func(fr *frame, args []value) value { return extOpenFile(fr, []value{args[0], oRDWR | oCREATE | oTRUNC, uint32(0o666)}) },
+		"(*os.File).Readdirnames": extReaddirnames,
+		"(*os.File).Name":     func(fr *frame, args []value) value { return fr.i.fileOf(args[0], "Name").path },
 		"os.Lstat":            extStat,
 		"os.IsNotExist":       extIsNotExist,
 		"os.Getenv":           extGetenv,
@@ -151,7 +155,14 @@ func extOpenFile(fr *frame, args []value) value {
 	}
 	dir, name := i.splitPath(args[0])
 	if fs.isDirPath(i, dir, name) {
-		return tuple{nilFile, i.fsErr("open (is a directory)", args[0])}
+		if flag&(oWRONLY|oRDWR) != 0 {
+			return tuple{nilFile, i.fsErr("open (is a directory)", args[0])}
+		}
+		full := dir
+		if ns, _ := name.(string); ns != "" {
+			full = cleanDir(dir + "/" + ns)
+		}
+		return tuple{i.newFileHandle(&openFile{isDir: true, dirPath: full, rd: true, path: args[0]}), nilErr()}
 	}
 	if nameTooLong(name) {
 		return tuple{nilFile, i.fsErr("open (file name too long)", args[0])}
@@ -169,7 +180,7 @@ func extOpenFile(fr *frame, args []value) value {
 		n.data = nil
 		fs.logOp("truncate %s/%s", dir, toString(name))
 	}
-	of := &openFile{node: n, app: flag&oAPPEND != 0, rd: flag&oWRONLY == 0, wr: flag&(oWRONLY|oRDWR) != 0}
+	of := &openFile{node: n, app: flag&oAPPEND != 0, rd: flag&oWRONLY == 0, wr: flag&(oWRONLY|oRDWR) != 0, path: args[0]}
 	return tuple{i.newFileHandle(of), nilErr()}
 }
 
@@ -312,7 +323,7 @@ func extFileWrite(fr *frame, args []value) value {
 	fs := i.path.fs
 	of := i.fileOf(args[0], "Write")
 	data := args[1].([]value)
-	if of.closed || !of.wr {
+	if of.closed || !of.wr || of.isDir {
 		return tuple{0, i.mkError("write: bad file descriptor")}
 	}
 	if i.fsFault("write") {
@@ -342,7 +353,7 @@ func extFileRead(fr *frame, args []value) value {
 	i.yield()
 	of := i.fileOf(args[0], "Read")
 	buf := args[1].([]value)
-	if of.closed || !of.rd {
+	if of.closed || !of.rd || of.isDir {
 		return tuple{0, i.mkError("read: bad file descriptor")}
 	}
 	if i.fsFault("read") {
@@ -414,6 +425,11 @@ func extFileStat(fr *frame, args []value) value {
 	}
 	T := i.namedType(vxPkg, "FileInfo")
 	p := newStruct(T)
+	if of.isDir {
+		setField(p, T, "Dir", true)
+		setField(p, T, "N", of.dirPath)
+		return tuple{iface{t: types.NewPointer(T), v: p}, nilErr()}
+	}
 	setField(p, T, "Sz", int64(len(of.node.data)))
 	setField(p, T, "N", of.node.name)
 	return tuple{iface{t: types.NewPointer(T), v: p}, nilErr()}
@@ -516,3 +532,20 @@ type EnvSpec struct {
 }
 
 var _ = fmt.Sprintf
+
+func extReaddirnames(fr *frame, args []value) value {
+	i := fr.i
+	of := i.fileOf(args[0], "Readdirnames")
+	if !of.isDir {
+		return tuple{[]value(nil), i.mkError("readdirent: not a directory")}
+	}
+	files, subs := i.path.fs.listDir(of.dirPath)
+	var out []value
+	for _, f := range files {
+		out = append(out, f.name)
+	}
+	for _, s := range subs {
+		out = append(out, s)
+	}
+	return tuple{out, nilErr()}
+}
